@@ -638,6 +638,8 @@ def correspondence(ctx):
     findings = load_corpus("findings.jsonl")
     cases = [dict(r["case"], shape="corpus", corpus_id=r["id"]) for r in findings]
     cases += [dict(r["case"], shape="corpus", corpus_id=r["id"]) for r in load_corpus("regressions.jsonl")]
+    # minimised past disagreements between the model and the implementation (each must now be predicted exactly)
+    cases += [dict(r["case"], shape="corpus", corpus_id=r["id"]) for r in load_corpus("past_disagreements.jsonl")]
     n = ctx.pick(110, 2000) * (2 if changed else 1)
     cases += [gen_case(ctx.rng, max_jobs=ctx.pick(32, 90)) for _ in range(n)]
     res = run_cases(ctx, cases)
